@@ -623,3 +623,62 @@ Theorem disable_restores_thm : forall (C : Type) (c0 c1 : C) (cadd cmul : C -> C
      solve_rejects C c0 c1 cadd cmul copp N exp erfc sqrt pi after limit findex unknowns x systems leak = false).
 Proof. exact disable_restores. Qed.
 Print Assumptions disable_restores_thm.
+
+(* ================================================================ session 5, package G:
+   the V-matrix machinery of _vnacal_new_solve_simple (SelfCal/VMatrixModel.v) *)
+Require Import LV.SelfCal.VMatrixModel LV.SelfCal.ExactOverModel LV.SelfCal.ExactOverProofs LV.SelfCal.ExactOverExample.
+
+(* THE ROW THEOREM.  For every field, every calibration type / dimension the model covers, every
+   equation whose standard measured exactly what x predicts (for every v_cell the terms carrying it
+   sum to zero at x, V factor and weight left out): the coefficient row the code builds from it with
+   ANY V-matrix state (none, identity, any matrix) and ANY weight (or none) has the right length and is
+   solved by x. *)
+Theorem exact_rows_hold_for_every_v_thm : forall (K : CField) (ofq : Qc -> K) (p : vprob K) (x : list K) (e : veq),
+  eq_wf K p e -> eq_exact K ofq p x e ->
+  forall (st : vstate K) (sindex : nat) (w : option Qc),
+  let rb := build_eq K ofq p st sindex w e in
+  length (fst rb) = vp_unknowns p /\ dot K (fst rb) x = snd rb.
+Proof. exact row_holds_any_v. Qed.
+Print Assumptions exact_rows_hold_for_every_v_thm.
+
+(* EXACT OVER-DETERMINED DATA ARE A FIXED POINT OF THE SOLVE WITH THE MODEL ON.
+   For every field with a positive definite squared modulus, every 1/sqrt, every inverse routine and
+   every pair of linear solvers that return a least-squares minimiser whenever the matrix has full
+   column rank (solver_spec), every problem p (type, dimensions, standards, term lists, noise model
+   on or off) and solution xs (one block per system) such that every equation is exact for its block,
+   every system has at least as many equations as unknowns, the V update at the truth is regular and
+   every coefficient matrix built on a V state the solve can reach has full column rank; for EVERY
+   solve state left by an earlier frequency, every et_tolerance, every initial x and every iteration
+   limit >= 2: _vnacal_new_solve_simple returns xs, with one or two passes per system (the loop over V
+   ends at its second convergence test at the latest). *)
+Theorem exact_data_fixed_point_thm : forall (K : CField) (N : K -> Qc) (rsqrt : Qc -> Qc) (ofq : Qc -> K)
+  (minv : nat -> list K -> option (list K))
+  (solve_sq solve_ls : nat -> list (list K) -> list K -> option (list K)),
+  (forall z : K, 0 <= N z) -> (forall z : K, N z = 0 -> z = c0) -> N c0 = 0 ->
+  solver_spec K N solve_sq -> solver_spec K N solve_ls ->
+  forall (p : vprob K) (xs : list (list K)) (tol : Qc) (limit : nat) (xinit : list K) (st_prev : vstate K),
+  blocks_wf K p xs -> data_exact K ofq p xs ->
+  (forall es, In es (vp_systems p) -> (vp_unknowns p <= length es)%nat) -> (2 <= limit)%nat ->
+  full_rank_on K ofq minv p xs (calc_weights K N rsqrt p) (init_v_matrices K (v_n K p) st_prev) ->
+  v_regular K minv p xs ->
+  exists st' ns, solve_frequency K N rsqrt ofq minv solve_sq solve_ls tol limit xinit st_prev p
+                 = SOk (concat xs, st', ns) /\
+                 Forall (fun n => (1 <= n <= 2)%nat) ns /\ length ns = length (vp_systems p).
+Proof. exact exact_data_fixed_point_l. Qed.
+Print Assumptions exact_data_fixed_point_thm.
+
+(* all premises at Q[i] on the term lists the library builds for a 1 x 1 T8 calibration (four
+   reflect standards, 4 equations, 3 unknowns, noise model on, 1 x 1 V matrices that are not 1): the
+   equations are well formed and exact for the truth, the model run returns the truth with two
+   passes, the unweighted solve returns the same vector *)
+Theorem exact_data_fixed_point_instance_thm :
+  ex_wf = true /\ ex_exact = true /\ ex_solve_weighted = true /\ ex_solve_plain = true.
+Proof. exact exact_data_instance. Qed.
+Print Assumptions exact_data_fixed_point_instance_thm.
+
+(* the bound 2 <= limit of exact_data_fixed_point_thm is sharp: with vnacal_new_set_iteration_limit(1)
+   the same exact data end in "measurement error model failed to converge" (the first convergence
+   test compares the solution with the initial "perfect" error terms) *)
+Theorem iteration_limit_one_refuses_exact_data_thm : ex_solve_limit1 = true.
+Proof. exact iteration_limit_one_instance. Qed.
+Print Assumptions iteration_limit_one_refuses_exact_data_thm.
